@@ -35,6 +35,7 @@ import (
 	"time"
 
 	"com.tuntun.rangers/node/src/common"
+	crypto "com.tuntun.rangers/node/src/eth_crypto"
 	"com.tuntun.rangers/node/src/middleware/db"
 	"com.tuntun.rangers/node/src/middleware/types"
 	"com.tuntun.rangers/node/src/service"
@@ -466,6 +467,7 @@ type execResult struct {
 	viol       []pending
 	steps      int64
 	preEntered bool
+	adb        *account.AccountDB
 }
 
 var (
@@ -563,6 +565,7 @@ func (h *harness) exec(c *Case) (res execResult) {
 		res.viol = append(res.viol, pending{"machinery", fmt.Sprintf("hook bookkeeping inconsistent: %d open frames, %d mismatches", len(h.t.frames), h.t.inconsistent)})
 	}
 	res.root1 = adb.IntermediateRoot(true)
+	res.adb = adb
 	if c.Kind == "create" && res.err != nil && res.root1 != res.root0 {
 		// geth semantics: the creator's nonce is bumped before the snapshot
 		adb.SetNonce(originAddr, 1)
@@ -727,6 +730,8 @@ func (h *harness) expect(c *Case, res *execResult, kind string) {
 		} else if len(res.ret) != 32 || !allZero(res.ret) {
 			bad(fmt.Sprintf("the failing sub-call reported success to its caller (flag %x)", res.ret))
 		}
+	case strings.HasPrefix(c.Expect, "bigcreate:"):
+		h.expectBigCreate(c, res, kind)
 	case strings.HasPrefix(c.Expect, "chainstatic:"):
 		// a state-modifying opcode some non-static frames below a STATICCALL must be
 		// rejected exactly as it is directly below the STATICCALL (probed at boot)
@@ -753,6 +758,84 @@ func (h *harness) expect(c *Case, res *execResult, kind string) {
 			r.Note("recursion template %s/%s gas=%d reached depth %d only", c.Fam, c.Tag, c.Gas, h.t.maxDepthSeen)
 			r.Count("depth_template_short", 1)
 		}
+	}
+}
+
+// expectBigCreate judges the creation-size templates: init code with effects
+// (SSTORE, LOG0, 1 wei endowment) that RETURNs `size` bytes, created by a
+// top-level Create, or by CREATE / CREATE2 in the contract under test.
+// size <= MaxCodeSize: the contract exists with exactly that code; larger: the
+// creation fails, burns its gas and leaves nothing behind (the top-level variant
+// is additionally covered by the root comparison of every failed Create).
+func (h *harness) expectBigCreate(c *Case, res *execResult, kind string) {
+	r := h.r
+	var mode string
+	var size int
+	parts := strings.Split(c.Expect, ":")
+	if len(parts) != 3 {
+		return
+	}
+	mode = parts[1]
+	size, _ = strconv.Atoi(parts[2])
+	var created common.Address
+	var init []byte
+	switch mode {
+	case "top":
+		created, init = crypto.CreateAddress(originAddr, 1), c.Code
+	case "create":
+		created, init = crypto.CreateAddress(targetAddr, 1), c.Input
+	case "create2":
+		init = c.Input
+		var salt [32]byte
+		salt[31] = 0x2a
+		created = crypto.CreateAddress2(targetAddr, salt, crypto.Keccak256(init))
+	default:
+		return
+	}
+	_ = init
+	adb := res.adb
+	if adb == nil {
+		return
+	}
+	var slot1 common.Hash
+	slot1[31] = 1
+	tooBig := size > vm.MaxCodeSize
+	bad := func(class, what string) {
+		r.Violation("C11:create-size:"+class, fmt.Sprintf("%s creation returning %d bytes (MaxCodeSize %d): %s", mode, size, vm.MaxCodeSize, what), h.witness(c, nil))
+	}
+	r.Count("expect_checked:bigcreate", 1)
+	if !tooBig {
+		r.Count("bigcreate_within_limit", 1)
+		if res.err != nil {
+			bad("within-limit-failed", fmt.Sprintf("failed with %v", res.err))
+		} else if n := adb.GetCodeSize(created); n != size {
+			bad("within-limit-failed", fmt.Sprintf("account %s holds %d bytes of code", created.GetHexString(), n))
+		}
+		return
+	}
+	r.Count("bigcreate_over_limit", 1)
+	if mode == "top" {
+		if kind != "max-code-size" {
+			bad("oversize-not-failed", fmt.Sprintf("expected ErrMaxCodeSizeExceeded, got %s (%v)", kind, res.err))
+		} else if res.left != 0 {
+			bad("oversize-gas-not-burnt", fmt.Sprintf("%d of %d gas handed back", res.left, c.Gas))
+		}
+	} else {
+		if res.err != nil {
+			bad("outer-failed", fmt.Sprintf("the creating frame failed: %v", res.err))
+			return
+		}
+		if len(res.ret) != 32 || !allZero(res.ret) {
+			bad("oversize-not-failed", fmt.Sprintf("the creating opcode pushed %x", res.ret))
+		}
+		if res.left > c.Gas/32 {
+			bad("oversize-gas-not-burnt", fmt.Sprintf("%d of %d gas left although 63/64 were handed to the failed creation", res.left, c.Gas))
+		}
+	}
+	if adb.GetNonce(created) != 0 || adb.GetCodeSize(created) != 0 || adb.GetBalance(created).Sign() != 0 ||
+		adb.GetState(created, slot1) != (common.Hash{}) {
+		bad("oversize-state-kept", fmt.Sprintf("account %s survived the failed creation: nonce %d, balance %v, code %d bytes, slot1 %x", created.GetHexString(),
+			adb.GetNonce(created), adb.GetBalance(created), adb.GetCodeSize(created), adb.GetState(created, slot1)))
 	}
 }
 
@@ -1172,7 +1255,7 @@ func main() {
 			"single-opcode probes over an operand grid {0,1,31,32,33,0xffff,2^32-1,2^32,0x1fffffffe0,0x1fffffffe1,2^63-1,2^63,2^64-1,2^64,2^255,2^256-1} for every opcode with memory operands, " +
 			"charge-wrap seekers (memory sizes whose magnified gas charge wraps uint64), truncated PUSHn, self/mutual recursion through CALL/CALLCODE/DELEGATECALL/STATICCALL/AUTHCALL/CREATE/CREATE2, CREATE loops, EXP/KECCAK256/LOGn sweeps, " +
 			"the node's opcodes (PRINTF, STAKE, UNSTAKE, GETSTAKE, UNSTAKEALL, STAKENUM, AUTH incl. valid signatures, AUTHCALL, TLOAD/TSTORE, BLOBHASH, BASEFEE, BLOBBASEFEE, MCOPY, PUSH0) with arbitrary stack and memory, stack-limit fills for every stack-growing opcode, " +
-			"fault templates with the expected error kind, every opcode byte 1-3 non-static frames (CALL/DELEGATECALL/CALLCODE, mixed) below a STATICCALL judged against its behaviour directly below the STATICCALL,  every precompile 1..18 directly and through CALL/CALLCODE/DELEGATECALL/STATICCALL/top-level Call with empty, 1-byte, valid (src/vm/testdata/precompiles), bit-flipped, truncated, extended, huge-length-field and random inputs; " +
+			"creations (top-level Create, CREATE, CREATE2) whose init code has effects and RETURNs MaxCodeSize-1 / MaxCodeSize / MaxCodeSize+1 / 2*MaxCodeSize / 1 MiB bytes with 2e10 gas, fault templates with the expected error kind, every opcode byte 1-3 non-static frames (CALL/DELEGATECALL/CALLCODE, mixed) below a STATICCALL judged against its behaviour directly below the STATICCALL,  every precompile 1..18 directly and through CALL/CALLCODE/DELEGATECALL/STATICCALL/top-level Call with empty, 1-byte, valid (src/vm/testdata/precompiles), bit-flipped, truncated, extended, huge-length-field and random inputs; " +
 			"each in the fork configurations {none, P014, P014+P022, P014+P022+P026} (one per child process). Non-trivial: the interpreter executed >= 1 step or a precompile was entered; distinct by hash of (config, kind, target, code, input, gas, value, helpers), recorded for the first 250k non-trivial cases of every child process.",
 		Assumptions: []string{
 			"the lower bound demanded for memory growth is the Yellow Paper cost C(w)=3w+w^2/512 of the growth (Rangers charges this, x30 or x900 under Proposal026): anything below it is a violation in every configuration",
@@ -1183,7 +1266,7 @@ func main() {
 		MustObserve: []string{"steps", "frames", "memory_growth_steps", "nontrivial_runs", "precompile_direct", "precompile_vectors_ok", "depth_limit_reached", "stack_1024_reached",
 			"fault:oog", "fault:invalid-opcode", "fault:stack-underflow", "fault:stack-overflow", "fault:bad-jump", "fault:write-protection", "fault:revert",
 			"failed_top_calls_root_compared", "max_table_defined_none", "max_table_defined_p014", "max_table_defined_p014p022", "max_table_defined_all",
-			"cases:rawcode", "cases:rawinit", "cases:weighted", "cases:memext", "cases:custom", "cases:recursion", "cases:precompile", "cases:precompile-call", "cases:stackfill", "cases:fault", "cases:staticchain", "expect_checked:chainstatic", "static_frame_steps", "cases:subcall", "cases:gaswrap", "cases:createloop"},
+			"cases:rawcode", "cases:rawinit", "cases:weighted", "cases:memext", "cases:custom", "cases:recursion", "cases:precompile", "cases:precompile-call", "cases:stackfill", "cases:fault", "cases:staticchain", "cases:bigcreate", "bigcreate_within_limit", "bigcreate_over_limit", "expect_checked:chainstatic", "static_frame_steps", "cases:subcall", "cases:gaswrap", "cases:createloop"},
 	})
 }
 
